@@ -608,7 +608,7 @@ def run(ctx, rep):
     K.share(ctx, rep, "c01", lambda o: o.rule == "R01.4" and "callback registered for the request" in o.key, "R08.8", floor=1)
     from . import hygiene as H
     H.private_state(ctx, rep, "R08.10", "rpyc.core.async_.AsyncResult")
-    K.share(ctx, rep, "c15", lambda o: o.rule in ("R15.1", "R15.5") or (o.rule == "R15.4" and "AsyncResult.wait" in o.key), "R08.11", floor=3)
+    K.share(ctx, rep, "c15", lambda o: o.rule in ("R15.1", "R15.5", "R15.6") or (o.rule == "R15.4" and "AsyncResult.wait" in o.key), "R08.11", floor=3)
     # a message that was encoded by a conforming peer decodes: writer/reader agreement of the value codec (a decode failure in
     # _dispatch happens before any request/reply handling - the message is neither executed nor answered)
     K.share(ctx, rep, "c04", lambda o: o.rule in ("R04.3", "R04.6") or (o.rule == "R04.2" and "output buffer" in o.key), "R08.7", floor=20)
